@@ -209,6 +209,11 @@ func c05Wait(c *Ctx) {
 				}
 				continue
 			}
+			// nothing to wait for: a reserved wait known to be ≤ 0 may return at once (a timer or sleep of a non-positive
+			// duration ends immediately)
+			if len(timers)+len(sels)+len(sleeps) == 0 && ret.IsNilConst() && p.State.Facts.Truth(ts, ts.Cmp("<=", w, ts.LinConst(0, w.Typ))) == triT {
+				continue
+			}
 			if len(timers) != 1 || len(sels) != 1 || timers[0].Args[0] != w || timers[0].Idx > sels[0].Idx {
 				bad("the wait must be one select on a timer whose duration is exactly the reserved wait time")
 				continue
